@@ -39,6 +39,13 @@ def design_runs(tier, which):
             raise Infra("design spec %s/%s violates %s: the specification itself is inconsistent\n%s" % (mod, cfg, r.violated, r.out[-3000:]))
         st += r.distinct; tr += r.generated
         notes.append({"module": mod, "cfg": cfg, "distinct": r.distinct, "generated": r.generated, "wall_s": round(r.wall, 1)})
+    if which == "C02":
+        # the counter abstraction for EVERY tree size and every uint32 SetIndex argument (inductive, Apalache)
+        import kit
+        notes.append({"apalache": [
+            kit.apalache("XmssCounter", init="Init", inv="IndInv", length=0, cinit="ConstInit", domain="N in 2..2^30"),
+            kit.apalache("XmssCounter", init="IndInit", inv="IndInv", length=1, cinit="ConstInit", domain="N in 2..2^30, SetIndex argument in 0..2^32-1"),
+            kit.apalache("XmssCounter", init="IndInit", next_="BadNext", inv="IndInv", length=1, cinit="ConstInit", expect_error=True)]})
     return st, tr, notes
 
 def drive_and_validate(label, h, args, timeout=3000):
@@ -199,7 +206,7 @@ def check(pid, tier):
     }
     write_evidence(pid, tier, "model_checking", cov, time.time() - t0, nv,
                    ["projection of 32-byte values to tree nodes uses a full tree built with the library's own genLeafWOTS/hashH (checked separately by C06)",
-                    "heights above 14 are not walked; the traversal's control flow depends only on (h, index history)"])
+                    "heights above 22 are not walked (DESIGN 11.7); the traversal's control flow depends only on (h, index history)"])
     if drift:
         log("MODEL-DRIFT property=%s events=%d: the code no longer follows spec/Bds.tla step by step (property observables %s)" %
             (pid, drift, "FAILED" if viols else "intact"))
